@@ -51,12 +51,16 @@ func blockFile(plan *crashkit.Plan) func(uint32) string {
 
 // registerExisting tells the recorder about block files that exist already (durable up to their size).
 func registerExisting(plan *crashkit.Plan, rec *crashkit.Recorder) {
-	for n := uint32(0); ; n++ {
-		st, err := os.Stat(blockFile(plan)(n))
-		if err != nil {
-			return
+	// (with pruning the low-numbered files are gone: scan the directory instead of counting up from 0)
+	files, _ := filepath.Glob(filepath.Join(dbDir(plan), "*.fdb"))
+	for _, f := range files {
+		var n uint32
+		if _, err := fmt.Sscanf(filepath.Base(f), "%09d.fdb", &n); err != nil {
+			continue
 		}
-		rec.KnownFile(n, st.Size())
+		if st, err := os.Stat(f); err == nil {
+			rec.KnownFile(n, st.Size())
+		}
 	}
 }
 
